@@ -10,6 +10,7 @@ INVARIANT Inv_Refusal
 INVARIANT Inv_NoWriteAtOrAboveOriginalSp
 INVARIANT Inv_NoRedZoneWriteIfLeaf
 INVARIANT Inv_ReadsOnlyOwnSlots
+INVARIANT Inv_SpAlignedOnAccess
 INVARIANT Inv_RestoredDeclared
 INVARIANT Inv_NoCollateral
 INVARIANT Inv_FlagsRestoredIfDeclared
